@@ -225,6 +225,17 @@ def native_encase(ctx, src, names, label, opts=None):
             out.append(txt)
     out.append('fn nf(c: &mut u32) -> f32 { *c += 1; *c as f32 }\nfn nu(c: &mut u32) -> u32 { *c += 1; *c }\nfn ni(c: &mut u32) -> i32 { *c += 1; -(*c as i32) }')
     ks = {}
+    unknown = []
+    for name in order:
+        for f in sts[name]['fields'] if name in th else []:
+            try:
+                decode_type(f[2])
+            except UnknownType as e:
+                unknown.append(f'{name}.{f[0]}: {e}')
+    if unknown:
+        # a member type outside the decoder's (= encase's) list: values cannot be constructed here, but the derive alone decides -
+        # encase's derive requires ShaderType of every field, so the struct items are compiled as they are
+        order, names = [], []
     for name in order:
         if name not in th:
             continue
@@ -256,7 +267,10 @@ def native_encase(ctx, src, names, label, opts=None):
     finally:
         shutil.rmtree(crate, ignore_errors=True)
     if p.returncode != 0:
-        return [{'struct': label, 'problem': 'generated structs do not compile / run against encase + glam', 'stderr': p.stderr[-1500:]}], 0
+        return [{'struct': label, 'problem': 'generated structs do not compile / run against encase + glam' + (f' (member types {unknown})' if unknown else ''),
+                 'stderr': p.stderr[-1500:]}], 0
+    if unknown:
+        raise Inconclusive(f'member types {unknown} are unknown to the decoder but compile against encase: extend decode_type / rust_ctor')
     bad, n = [], 0
     for line in p.stdout.split():
         pass
@@ -413,6 +427,15 @@ def run(ctx):
                           z3.Implies(h.tdisc == h.TI['Array'], B(r == 'array')))
         return z3.And(leaf_cls, h.matches(sem, base_match=bm))
 
+    def dt(tokens):
+        """decoded member type; a type the decoder does not know has no encase class (class_ok is false for it, the witness is replayed)"""
+        try:
+            return decode_type(tokens)
+        except Exception as e:
+            if type(e).__name__ != 'UnknownType':
+                raise
+            return {'struct': '?unknown type ' + T.text(tokens)}
+
     def bm_for(hole):
         def bm(base_term, sem):
             alts = []
@@ -442,8 +465,10 @@ def run(ctx):
                     assume += [h.tdisc == h.TI['Array'], h.base == hh['HA'], h.alen == 2, z3.Not(h.adyn)]
                 else:
                     assume += [h.tdisc == h.TI['Vector'], h.vsize == 3, h.kind == h.SK['Float'], h.width == 4]
+        # the other derive switches are symbolic where the leaf type is (plan HA): the encase class of a member must not depend on them
+        sw = {k_: (z3.Bool(k_) if plan == ('HA',) else False) for k_ in ('derive_bytemuck_vertex', 'derive_bytemuck_host_shareable', 'derive_serde')}
         res = ctx.explore(f'structs/glam+encase/symbolic-{"+".join(plan)}',
-                          lambda it: it.call('structs', [mkref(module), write_options(S.conv, matrix_vector_types='Glam', derive_encase_host_shareable=True)]),
+                          lambda it: it.call('structs', [mkref(module), write_options(S.conv, matrix_vector_types='Glam', derive_encase_host_shareable=True, **sw)]),
                           assume=assume, anchors=['structs', 'rust_struct', 'struct_members', 'rust_type'], timeout_s=3000)
         for pc, kind, out, _ in res:
             if kind == 'panic':
@@ -473,9 +498,9 @@ def run(ctx):
                             det = {'wgsl': wsrc, 'options': OPTS, 'real_fields_of_Host': real_fields, 'encase': bad}
                         ctx.report(key, f'Host is emitted with fields {list(fd)}: a member named {name0!r} is dropped', det, rep, det)
                     continue
-                conds.append(('member m0 has the encase class of its WGSL type', class_ok(HA, decode_type(fd[C06.NAME0][2]))))
-                conds.append(('member m1 has the encase class of its WGSL type', class_ok(HB, decode_type(fd['m1'][2]), bm_for(HB))))
-                sem = decode_type(fd['tail'][2])
+                conds.append(('member m0 has the encase class of its WGSL type', class_ok(HA, dt(fd[C06.NAME0][2]))))
+                conds.append(('member m1 has the encase class of its WGSL type', class_ok(HB, dt(fd['m1'][2]), bm_for(HB))))
+                sem = dt(fd['tail'][2])
                 is_rt = z3.And(HC.tdisc == HC.TI['Array'], HC.adyn)
                 if 'rt' in sem:
                     conds.append(('trailing runtime array is a Vec marked #[size(runtime)] of the element class',
@@ -491,11 +516,12 @@ def run(ctx):
             if seen[key] > 1:
                 continue
             spell = {k: h.wgsl(m) for k, h in holes.items()}
-            rep, det = False, {'members': spell}
+            wopts = dict(OPTS, **{k_: bool(model_value(m, v_)) for k_, v_ in sw.items() if is_sym(v_)})
+            rep, det = False, {'members': spell, 'options': wopts}
             if all(spell.values()):
                 wsrc = C06.render(spell, '', concrete_name(m, C06.NAME0, 'm0'))
-                bad, n = native_encase(ctx, wsrc, ['Host'], 'witness')
-                rep, det = bool(bad), {'wgsl': wsrc, 'encase': bad}
+                bad, n = native_encase(ctx, wsrc, ['Host'], 'witness', wopts)
+                rep, det = bool(bad), {'wgsl': wsrc, 'options': wopts, 'encase': bad}
             ctx.report(key, f'{failed[0]}: member types {spell}', det, rep, det)
         oks = [r for r in res if r[1] == 'ok']
         ctx.vacuity_witness('encase class assertions reachable', oks[0][0])
